@@ -10,6 +10,10 @@ Request `<op> <args…> => <implementation output>`, answer `model=<…> holds=<
        source (Model/Source): model = block partition of Model/XerialIO.readFromLoop for that script
   xr <framed> <block sizes csv> <read buffer sizes csv> => <Read return values csv>
        model = Model/Xerial.readSizes on the described reference stream; holds = equal ∧ the sizes add up.
+  xrcut <block sizes csv> <m> <kind> <read buffer sizes csv> => <Read return values csv, a second 0 for an error>
+       framed reference stream that ends early after m blocks (kind 0: on the boundary, 1..3: inside the length field,
+       4: right after it, 5: inside the block): model = Model/Xerial.readSizes on the cut stream; holds = equal ∧ the model's output is a
+       prefix of the payload (Props/C16 truncated_stream_prefix on the instance)
   rt|out|in <codec> <kind> <len:crc> [..] => ok <len:crc>      model = "ok <len:crc>" (losslessness / interop)
   hist <codec> <what> <len:crc payload> <len:crc stream> => ok <len:crc> <len:crc>
   ovl <codec> <what> <p1> <p2> <p3> => ok <p1> <p2> <p3> <p1> <p2> <p3>   three writers, then three readers, open at once
@@ -82,6 +86,24 @@ def step (line : String) : String :=
         let model := showNats ns
         answer model (model == impl && ns.foldl (· + ·) 0 == blocks.foldl (· + ·) 0)
       | _, _ => "bad-op"
+    | ["xrcut", blocks, m, kind, asked] =>
+      match parseNats blocks, m.toNat?, kind.toNat?, parseNats asked with
+      | some blocks, some m, some kind, some asked =>
+        -- the identity block codec: a block of n bytes takes 4 + n bytes; `kind` 1..3 = that many bytes of the next
+        -- length field, 4 = the length field and none of the block (reported as a CLEAN end: io.ReadFull answers io.EOF),
+        -- 5 = the length field and a strict non-empty part of the block (an error)
+        -- (kind 5: one byte of the block, which the model makes at least 2 bytes long so that the part is strict)
+        let mblocks := blocks.take m ++ (blocks.drop m).map (fun n => max n 2)
+        let full := Spec.Xerial.frame (mblocks.map zerosOf)
+        let cut := 16 + ((blocks.take m).map (· + 4)).foldl (· + ·) 0 + kind
+        let stream := full.take cut
+        let ns := readSizes idCodec (newReader stream) asked
+        let model := showNats ns
+        -- Props/C16 truncated_stream_prefix on the instance: the bytes delivered are a prefix of the payload
+        let out := Model.Xerial.readAllOut idCodec (newReader stream) asked
+        let pre := out == ((mblocks.map zerosOf).flatten).take out.length
+        answer model (model == impl && pre)
+      | _, _, _, _ => "bad-op"
     | ["cfg", _spec, _round, p, st] => let model := s!"ok {p} {st}"; answer model (model == impl)
     | ["srcerr", _codec, _sum, _cut] => answer "sound" (impl == "sound")
     | ["wrerr", _codec, _sum, _cut] => answer "sound" (impl == "sound")
